@@ -93,17 +93,22 @@ Definition export_deps (g : graph) (ents : list nat) (e : nat) : list nat :=
 Definition nfiles (g : graph) : nat := length (g_files g).
 
 (* ---- findReachableFiles: DFS post-order, runtime first, then the entry points ---- *)
-Fixpoint visit (fuel : nat) (g : graph) (f : nat) (st : list nat * list nat) : list nat * list nat :=
+(* generic depth-first post-order walk (visited set, output list) *)
+Fixpoint gvisit (fuel : nat) (succ : nat -> list nat) (x : nat) (st : list nat * list nat) : list nat * list nat :=
   match fuel with
   | O => st
   | S k =>
-    let '(vis, ord) := st in
-    if memn f vis then st else
-    let '(vis', ord') := fold_left (fun s r => visit k g (fst r) s) (f_recs (getf g f)) (f :: vis, ord) in
-    (vis', ord' ++ [f])
+    let '(vis, out) := st in
+    if memn x vis then st else
+    let '(vis', out') := fold_left (fun s y => gvisit k succ y s) (succ x) (x :: vis, out) in
+    (vis', out' ++ [x])
   end.
+Definition postorder (fuel : nat) (succ : nat -> list nat) (roots : list nat) : list nat :=
+  snd (fold_left (fun s x => gvisit fuel succ x s) roots ([], [])).
+
+Definition rec_targets (g : graph) (f : nat) : list nat := map fst (f_recs (getf g f)).
 Definition reachable_files (g : graph) : list nat :=
-  snd (fold_left (fun s e => visit (S (nfiles g)) g e s) (0%nat :: g_user g) ([], [])).
+  postorder (S (nfiles g)) (rec_targets g) (0%nat :: g_user g).
 
 Fixpoint index_of (x : nat) (l : list nat) : nat :=
   match l with [] => O | y :: r => if (x =? y)%nat then O else S (index_of x r) end.
@@ -273,19 +278,6 @@ Fixpoint insert_by (g : graph) (a : analysis) (f : nat) (l : list nat) : list na
   | [] => [f]
   | x :: r => if key_ltb (order_key g a f) (order_key g a x) then f :: l else x :: insert_by g a f r
   end.
-(* generic depth-first post-order walk (visited set, output list) *)
-Fixpoint gvisit (fuel : nat) (succ : nat -> list nat) (x : nat) (st : list nat * list nat) : list nat * list nat :=
-  match fuel with
-  | O => st
-  | S k =>
-    let '(vis, out) := st in
-    if memn x vis then st else
-    let '(vis', out') := fold_left (fun s y => gvisit k succ y s) (succ x) (x :: vis, out) in
-    (vis', out' ++ [x])
-  end.
-Definition postorder (fuel : nat) (succ : nat -> list nat) (roots : list nat) : list nat :=
-  snd (fold_left (fun s x => gvisit fuel succ x s) roots ([], [])).
-
 (* isFileInThisChunk (for a live part) *)
 Definition in_chunk (a : analysis) (c : chunk) (f : nat) : bool :=
   is_live a f && Equals (c_bits c) (file_bits a f).
